@@ -7,6 +7,7 @@ import (
 	"fmt"
 	"math"
 	"sync/atomic"
+	"time"
 
 	"github.com/iotaledger/iota.go/consts"
 	"github.com/iotaledger/iota.go/trinary"
@@ -19,20 +20,42 @@ import (
 
 func init() { c11Sched = runC11Scripted }
 
-// c11Script: batch b, lane j has exactly 64b+j trailing zero trits (capped at 243).
-func c11Script(batch int, _ []trinary.Trits, l, h *[consts.HashTrinarySize]uint) {
+// c11CapNonce is returned by the scripted mine helper after the shared deadline: it scores the maximum, so that a capped
+// run raises nothing.
+const c11CapNonce = 243
+
+// c11Zeros is the scripted hash of C11 as a function of the hashed nonce: a block that carries nonce n has exactly
+// min(n mod 4096, 243) trailing zero trits. A single worker that searches upwards from 0 therefore returns the zero
+// count it required; any other search order still returns a nonce that is judged by this same function.
+func c11Zeros(n uint64) int {
+	z := int(n % 4096)
+	if z > 243 {
+		z = 243
+	}
+	return z
+}
+
+func c11Script(_ int, src []trinary.Trits, l, h *[consts.HashTrinarySize]uint) {
 	var zeros [64]int
-	for j := range zeros {
-		z := 64*batch + j
-		if z > 243 {
-			z = 243
+	for j := range src {
+		if j < 64 {
+			if n, ok := powDecodeNonce(src[j]); ok {
+				zeros[j] = c11Zeros(n)
+			}
 		}
-		zeros[j] = z
 	}
 	*l, *h = c11LaneState(&zeros)
 }
 
 func runC11Scripted(c *core.Ctx, nontriv *atomic.Int64) bool {
+	if !powIntercepted(1) {
+		c.Set("scripted_part", "skipped: Mine does not hash through a package the overlay instruments, so the float boundary of its zero count could not be observed")
+		return false
+	}
+	// belt and braces: every scripted call terminates within four batches; a shared deadline turns anything else into a
+	// capped run instead of a hang
+	sweepCtx, sweepCancel := context.WithTimeout(context.Background(), 45*time.Minute)
+	defer sweepCancel()
 	vbct.Script = c11Script
 	vbct.Memo = false
 	defer func() { vbct.Script = nil }()
@@ -59,10 +82,14 @@ func runC11Scripted(c *core.Ctx, nontriv *atomic.Int64) bool {
 		data := make([]byte, msgLen-8)
 		var nonce uint64
 		var err error
-		p := core.Catch(func() { nonce, err = pow.New(1).Mine(context.Background(), data, target) })
+		p := core.Catch(func() { nonce, err = pow.New(1).Mine(sweepCtx, data, target) })
+		if sweepCtx.Err() != nil {
+			c.CapHit()
+			return c11CapNonce, nil, nil
+		}
 		return nonce, err, p
 	}
-	score := func(z uint64, msgLen int) float64 { return math.Pow(3, float64(z)) / float64(msgLen) }
+	score := func(nonce uint64, msgLen int) float64 { return math.Pow(3, float64(c11Zeros(nonce))) / float64(msgLen) }
 
 	// trivially low targets first, sequentially, so that a goroutine panic can be attributed
 	vsched.PassThroughPanics()
@@ -97,7 +124,7 @@ func runC11Scripted(c *core.Ctx, nontriv *atomic.Int64) bool {
 				continue
 			}
 			if score(nonce, l) < t {
-				c.Violate("C11/mine/"+cls+"/score-below-target", fmt.Sprintf("msg length %d, target %v: returned zero count %d scores %v", l, t, nonce, score(nonce, l)), cas, gt, nil)
+				c.Violate("C11/mine/"+cls+"/score-below-target", fmt.Sprintf("msg length %d, target %v: returned nonce %d, whose (scripted) hash has %d trailing zeros and scores %v", l, t, nonce, c11Zeros(nonce), score(nonce, l)), cas, gt, nil)
 			}
 		}
 	}
@@ -107,7 +134,11 @@ func runC11Scripted(c *core.Ctx, nontriv *atomic.Int64) bool {
 	core.Par(len(lens), func(i int) {
 		l := lens[i]
 		ln := float64(l)
-		for k := 0; k <= 60; k++ {
+		kmax := 60
+		if l <= 64 || l%8 == 0 {
+			kmax = 243 // up to the largest attainable score 3^243/len
+		}
+		for k := 0; k <= kmax; k++ {
 			center := math.Pow(3, float64(k)) / ln
 			ts := []float64{center}
 			up, down := center, center
@@ -117,6 +148,9 @@ func runC11Scripted(c *core.Ctx, nontriv *atomic.Int64) bool {
 				ts = append(ts, up, down)
 			}
 			for ti, t := range ts {
+				if t > math.Pow(3, 243)/ln {
+					continue // needs more than 243 zeros: not attainable, outside the property
+				}
 				nonce, err, p := mine(l, t)
 				c.Eval(1)
 				nontriv.Add(1)
@@ -135,7 +169,7 @@ func runC11Scripted(c *core.Ctx, nontriv *atomic.Int64) bool {
 					continue
 				}
 				if score(nonce, l) < t {
-					c.Violate("C11/mine/"+cls+"/score-below-target", fmt.Sprintf("msg length %d, target %v (3^%d/len %+d ulp): Mine accepts %d trailing zeros, which score %v < target", l, t, k, []int{0, 1, -1, 2, -2}[ti], nonce, score(nonce, l)), cas, gt, nil)
+					c.Violate("C11/mine/"+cls+"/score-below-target", fmt.Sprintf("msg length %d, target %v (3^%d/len %+d ulp): Mine accepts %d trailing zeros (nonce %d), which score %v < target", l, t, k, []int{0, 1, -1, 2, -2}[ti], c11Zeros(nonce), nonce, score(nonce, l)), cas, gt, nil)
 				}
 				if ti == 0 {
 					exact.Add(1)
